@@ -325,7 +325,7 @@ func (s Schema) RenderFormat(from string) (string, error) {
 		isStruct := s.Ref.Schema.Kind() == SchemaKindObject
 		isArray := s.Ref.Schema.Kind() == SchemaKindArray
 		if !s.Ref.Schema.IsCustom() && !isStruct && !isArray {
-			from = from + "." + s.Ref.Schema.FuncTypeName() + "()"
+			from = from + "." + Title(s.Ref.Schema.FuncTypeName()) + "()" // the accessor is declared under its titled name
 		}
 		return s.Ref.Schema.RenderFormat(from)
 	}
@@ -343,7 +343,7 @@ func (s Schema) RenderFormatStrings(to, from string, isNew bool) (string, error)
 	s = s.throughAliases()
 	if s.Ref != nil {
 		if !s.Ref.Schema.IsCustom() {
-			from = from + "." + s.Ref.Schema.FuncTypeName() + "()"
+			from = from + "." + Title(s.Ref.Schema.FuncTypeName()) + "()" // the accessor is declared under its titled name
 		}
 		tp := SchemaType(s.Ref.Schema)
 		return tp.RenderFormatStrings(to, from, isNew)
